@@ -52,7 +52,7 @@ def source_tokens(src, lo, hi, rewrites=(), keep_attrs=(), d2=False, stub=None):
             continue
         if i in rw:
             b, old, new = rw[i]
-            if [x.text for x in toks[i:b]] != [x.text for x in rscan.tokenize(old)]:
+            if old is not None and [x.text for x in toks[i:b]] != [x.text for x in rscan.tokenize(old)]:
                 raise VerbatimError(f'declared rewrite `{old}` does not match the source at token {i}')
             out += [x.text for x in rscan.tokenize(new)]
             i = b
